@@ -184,7 +184,9 @@ func (p *Program) Reach(roots ...*ssa.Function) map[*ssa.Function]bool {
 	seen := map[*ssa.Function]bool{}
 	var work []*ssa.Function
 	push := func(f *ssa.Function) {
-		if f != nil && !seen[f] && len(f.Blocks) > 0 {
+		// module functions only: the standard library cannot call back into the module except through
+		// function values, which are followed at the call site below
+		if f != nil && !seen[f] && len(f.Blocks) > 0 && IsModuleFunc(f) {
 			seen[f] = true
 			work = append(work, f)
 		}
@@ -192,29 +194,37 @@ func (p *Program) Reach(roots ...*ssa.Function) map[*ssa.Function]bool {
 	for _, r := range roots {
 		push(r)
 	}
+	if p.succCache == nil {
+		p.succCache = map[*ssa.Function][]*ssa.Function{}
+	}
 	for len(work) > 0 {
 		f := work[len(work)-1]
 		work = work[:len(work)-1]
-		for _, b := range f.Blocks {
-			for _, ins := range b.Instrs {
-				switch x := ins.(type) {
-				case ssa.CallInstruction:
-					fs, _ := p.Callees(x)
-					for _, g := range fs {
-						push(g)
-					}
-					// function values passed as arguments may be called by the callee
-					for _, a := range x.Common().Args {
-						for _, g := range funcValueTargets(a, 0) {
-							push(unwrapBound(g))
+		succ, ok := p.succCache[f]
+		if !ok {
+			for _, b := range f.Blocks {
+				for _, ins := range b.Instrs {
+					switch x := ins.(type) {
+					case ssa.CallInstruction:
+						fs, _ := p.Callees(x)
+						succ = append(succ, fs...)
+						// function values passed as arguments may be called by the callee
+						for _, a := range x.Common().Args {
+							for _, g := range funcValueTargets(a, 0) {
+								succ = append(succ, unwrapBound(g))
+							}
 						}
-					}
-				case *ssa.MakeClosure:
-					if g, ok := x.Fn.(*ssa.Function); ok {
-						push(g)
+					case *ssa.MakeClosure:
+						if g, ok := x.Fn.(*ssa.Function); ok {
+							succ = append(succ, g)
+						}
 					}
 				}
 			}
+			p.succCache[f] = succ
+		}
+		for _, g := range succ {
+			push(g)
 		}
 	}
 	return seen
